@@ -46,7 +46,7 @@ func c13Run(x *core.Ctx) {
 	}
 	r := x.Rand(uint64(x.Shard))
 	for i := 0; i < n; i++ {
-		rn := &model.Renderer{R: r.Fork(uint64(i)), BlockValue: ref.BlockStringValue, Trivia: i % 3}
+		rn := &model.Renderer{R: r.Fork(uint64(i)), BlockValue: ref.BlockStringValue, Trivia: i % 3, WideComments: true}
 		switch i % 3 {
 		case 0:
 			d := gen.SchemaDoc(r, &gen.SOpts{Hostile: i%2 == 0, KeywordNames: i%4 == 0, MaxItems: 5})
